@@ -241,6 +241,10 @@ pub fn run(ctx: &Ctx) {
     let n = ctx.tier.pick(300, 20_000);
     ctx.explore("npo-circuits", RULE_NPO, n, crate::checks::c08::prove_case_strategy, |c| npo_oracle(c, false));
     ctx.explore("npo-circuits-full-table", RULE_NPO, n, crate::checks::c08::prove_case_strategy, |c| npo_oracle(c, true));
+    // direct permutation programs (sponge / Merkle rows, exposed index sums, exactly full tables)
+    ctx.explore("perm-programs", crate::checks::pp::RULE_PROVE, ctx.tier.pick(400, 20_000),
+        crate::checks::pp::strategy, |c| crate::checks::pp::oracle_bus(c, "C09/perm-programs"));
+    ctx.replay_known("perm-programs", |c: &crate::checks::pp::Case| crate::e1::without_exclusions(|| crate::checks::pp::oracle_bus(c, "C09/perm-programs")));
 }
 
 pub const RULE_NPO: &str = "honest MMCS opening circuits (arity-2 degree-4 Poseidon2 configurations, base and extension \
